@@ -61,8 +61,8 @@ CHECKS.update({
     'C09': dict(text='Real callMethod -> exec -> eval -> lookup/assign on a hand-built method body: a bare name must use the receiver\'s field whatever the caller\'s locals are called (renaming the caller\'s local w -> v changes nothing); values symbolic.',
                 note='one caller scope, one field; colliding/non-colliding name and read/write enumerated. On the pinned tree the colliding cases FAIL: recorded as known finding C09-caller-local-shadows-field (repair not small).',
                 ref='DESIGN.md §2 C09, §5', tech=TECH_SAT),
-    'C12': dict(text='CBMC built-in checks (division by zero, MIN/-1 on sdiv/srem, invalid/freed/out-of-bounds dereference) and "only a located Runtime BlochError may escape" over the real eval() of one binary expression with full-range symbolic operands and divisors {0,1,-1,2,7,MIN,MAX}, and over the real buildClassTable for a class with 1..3 virtual overloads of one name (every dispatch-table entry dereferenced).',
-                note='expression kernel and non-generic dispatch-table construction only: literal conversion, teardown after error, indices, null references, generic instantiations are NOT encoded. Found and fixed: INT64_MIN % -1L SIGFPE (bbb974b); dangling dispatch entries with overloaded virtual methods (c53bee3).',
+    'C12': dict(text='CBMC built-in checks (division by zero, MIN/-1 on sdiv/srem, invalid/freed/out-of-bounds dereference) and "only a located Runtime BlochError may escape" over the real eval() of one binary expression with full-range symbolic operands and divisors {0,1,-1,2,7,MIN,MAX}, and over the real buildClassTable for a class with 1..3 virtual overloads of one name (every dispatch-table entry dereferenced), and over eval of one LiteralExpression for 10 boundary texts (int up to and beyond INT_MAX, long, bit).',
+                note='expression kernel and non-generic dispatch-table construction only: float literals, teardown after error, indices, null references, generic instantiations are NOT encoded. Found and fixed: INT64_MIN % -1L SIGFPE (bbb974b); dangling dispatch entries with overloaded virtual methods (c53bee3); raw stoi exception for an int literal above INT_MAX (a7b1256).',
                 ref='DESIGN.md §2 C12', tech=TECH_SAT),
     'C17': dict(text='One endScope() step of the real evaluator from arbitrary prior counts and arbitrary last-measurement records: a tracked qubit contributes exactly one outcome (last measurement or ?), an untracked one nothing, other keys untouched.',
                 note='qubit[] entries are in the thorough tier only and may be inconclusive (900 s); CLI shot loop, @shots precedence, probabilities, echo policy (cli.cpp) and tracked object fields are outside.',
